@@ -1,14 +1,30 @@
 //! Name -> driver / replay for the arithmetic and structural properties.
+use crate::arith::*;
 use crate::common::Sink;
 use crate::order::ReplayReport;
 use serde_json::Value;
 
-pub fn replay(kind: &str, _lines: &[Value], _seed: u64) -> ReplayReport {
-    eprintln!("unknown replay kind {kind}");
-    std::process::exit(2)
+pub fn replay(kind: &str, lines: &[Value], seed: u64) -> ReplayReport {
+    match kind {
+        "poly" => replay_poly(lines, seed),
+        _ => {
+            eprintln!("unknown replay kind {kind}");
+            std::process::exit(2)
+        }
+    }
 }
 
-pub fn drive(kind: &str, _seed: u64, _n: usize, _extra: &str, _sink: &mut Sink) {
-    eprintln!("unknown driver {kind}");
-    std::process::exit(2)
+/// Returns the number of non-trivial cases the driver produced (its own rule).
+pub fn drive(kind: &str, seed: u64, n: usize, _extra: &str, sink: &mut Sink) -> usize {
+    match kind {
+        "eval" => drive_eval(seed, n, sink),
+        "calib" => {
+            drive_calib(seed, n, sink);
+            0
+        }
+        _ => {
+            eprintln!("unknown driver {kind}");
+            std::process::exit(2)
+        }
+    }
 }
